@@ -48,9 +48,9 @@ def run(ctx, pid_mon="C04"):
     if not q:
         _m1.simulate(ctx, "MC_Market_sim", 300)
     # 2. impl -> spec on random configurations / states / sequences
-    judge(_m1.random_trace(ctx, "random", 1500 if q else 20000), "h-model c04 random")
+    judge(_m1.random_trace(ctx, "random", 1500 if q else 10000), "h-model c04 random")
     if not q:
-        ev, fails = _m1.validate(ctx, _m1.random_trace(ctx, "random-d2", 6000, dec=2, seed_off=1), pid_mon, cfg="Trace_Market_d2")
+        ev, fails = _m1.validate(ctx, _m1.random_trace(ctx, "random-d2", 4000, dec=2, seed_off=1), pid_mon, cfg="Trace_Market_d2")
         for i, mon in fails:
             ctx.report(classify(ev[i], mon), {"driver": "h-model c04 random --dec 2", "events": ev[max(0, i - 1):i + 1]})
     _m1.need(counts, ["failed", "capped_positive", "positive", "negative", "no_impact", "zero_cfg_spread", "with_positions"], pid_mon)
